@@ -8,13 +8,18 @@ EXTENDS Naturals, Sequences, FiniteSets, TLC, Json
 CONSTANTS LKind, Stride
 VARIABLES mask
 NTerms == CASE LKind = "ode" -> 3 [] LKind = "statio" -> 4 [] LKind = "nonstatio" -> 5
+            [] LKind = "sysode" -> 4        \* (ua, ub) x (initial condition, observations)
+            [] LKind = "syspde" -> 6        \* (ua, ub) x (initial condition, boundary, observations)
 Groups == 1..3
 Masks == [1..NTerms -> [Groups -> BOOLEAN]]
-(* a covering selection for the quick tier: masks whose binary weight pattern is on the stride *)
-Weight(m) == LET bit(t, g) == IF m[t][g] THEN 1 ELSE 0 IN
-             (bit(1,1) + 2*bit(1,2) + 4*bit(1,3) + 8*bit(2,1) + 16*bit(2,2) + 32*bit(2,3) + 64*bit(3,1) + 128*bit(3,2) + 256*bit(3,3)
-              + (IF NTerms >= 4 THEN 512*bit(4,1) + 1024*bit(4,2) + 2048*bit(4,3) ELSE 0)
-              + (IF NTerms >= 5 THEN 4096*bit(5,1) + 8192*bit(5,2) + 16384*bit(5,3) ELSE 0))
+(* a covering selection for the quick tier: masks whose binary code is on the stride *)
+RECURSIVE Pow2(_)
+Pow2(k) == IF k = 0 THEN 1 ELSE 2 * Pow2(k - 1)
+RECURSIVE Code(_, _)
+Code(m, k) == IF k = 0 THEN 0
+              ELSE LET t == ((k - 1) \div 3) + 1  g == ((k - 1) % 3) + 1 IN
+                   (IF m[t][g] THEN Pow2(k - 1) ELSE 0) + Code(m, k - 1)
+Weight(m) == Code(m, 3 * NTerms)
 Init == mask \in Masks /\ (Weight(mask) * 7) % Stride = 0
 Next == UNCHANGED mask
 Spec == Init /\ [][Next]_mask
